@@ -23,7 +23,9 @@ def build():
     for pid in ALL:
         try:
             m = importlib.import_module(f"harness.props.{pid.lower()}")
-        except ModuleNotFoundError:
+        except ModuleNotFoundError as ex:
+            if ex.name != f"harness.props.{pid.lower()}":
+                raise              # a missing dependency (wrong interpreter) must not silently drop a claimed check
             continue
         if hasattr(m, "MANIFEST") and pid in READY:
             register(pid, **m.MANIFEST)
